@@ -305,13 +305,36 @@ func (fg *FG) instr(st *State, in ssa.Instruction) {
 		for i := len(fg.defers) - 1; i >= 0; i-- {
 			d := fg.defers[i]
 			db := fg.fn.Blocks[fg.deferBlk[i]]
-			if !db.Dominates(in.Block()) {
-				if !blockReaches(db, in.Block()) {
-					continue // this defer statement cannot have executed on any path to here
-				}
-				fg.fail("conditional defer is outside the subset")
+			if db.Dominates(in.Block()) {
+				fg.call(st, &d.Call, d, nil)
+				continue
 			}
-			fg.call(st, &d.Call, d, nil)
+			if !blockReaches(db, in.Block()) {
+				continue // this defer statement cannot have executed on any path to here
+			}
+			if _, inLoop := fg.inAnyLoop(db); inLoop {
+				fg.fail("defer inside a loop is outside the subset")
+			}
+			// conditional defer: the deferred call runs iff control passed through its block
+			rd := fg.R[db.Index]
+			if rd == "" {
+				fg.fail("internal: defer block not yet translated")
+			}
+			saved := fg.R[fg.curBlock]
+			fg.R[fg.curBlock] = fmt.Sprintf("(and %s %s)", saved, rd)
+			alt := st.clone()
+			fg.call(alt, &d.Call, d, nil)
+			fg.R[fg.curBlock] = saved
+			for fam, nv := range alt.heaps {
+				ov, ok := st.heaps[fam]
+				if !ok {
+					ov = "H0." + fam
+					fg.declare(ov, fg.heapSort[fam])
+				}
+				if ov != nv {
+					fg.setHeap(st, fam, fmt.Sprintf("(ite %s %s %s)", rd, nv, ov))
+				}
+			}
 		}
 	case *ssa.Go:
 		fg.goStmt(st, x)
@@ -760,4 +783,13 @@ func blockReaches(a, b *ssa.BasicBlock) bool {
 		stack = append(stack, x.Succs...)
 	}
 	return false
+}
+
+func (fg *FG) inAnyLoop(b *ssa.BasicBlock) (int, bool) {
+	for h, blocks := range fg.loopBlocks {
+		if blocks[b.Index] {
+			return h, true
+		}
+	}
+	return 0, false
 }
